@@ -181,12 +181,12 @@ SPECS["C05"] = {
 }
 
 SPECS["C04"] = {
-    "explanation": "Purity of detection as four obligations, each from an arbitrary or adversarial pre-state: (1) json.Parse from a fresh and from an arbitrary "
-                   "recycled parser state (symbolic fields) gives identical results; (2) the CSV/TSV check with a fresh and with a dirtied pooled bufio.Reader "
+    "explanation": "Purity of detection as four obligations, each from an arbitrary or adversarial pre-state: (1) json.Parse from a fresh parser and from a parser that a real earlier Parse released - that earlier Parse itself starting "
+                   "from an arbitrary pooled state with symbolic fields - gives identical results; (2) the CSV/TSV check with a fresh and with a dirtied pooled bufio.Reader "
                    "gives identical verdicts; (3) Detect hands the walk exactly the first limit bytes of the caller's slice (C05 harness, asserted there too); "
                    "(4) no detector, charset sniffer or entry point writes to the caller's buffer (write watch on the input cells in the C01 harnesses and in Detect).",
     "units": [
-        {"name": "jsonpool", "pkg": "json", "harnesses": ["HC04Pool"], "quick_args": fix(maxlen=5), "thorough_args": fix(maxlen=6), "quick_shards": 32, "thorough_shards": 64},
+        {"name": "jsonpool", "pkg": "json", "harnesses": ["HC04Pool2"], "quick_args": fix(maxlen=4), "thorough_args": fix(maxlen=4), "quick_shards": 32, "thorough_shards": 64},
         {"name": "csvpool", "pkg": "magic", "harnesses": ["HC04CsvPool"], "quick_args": fix(maxlen=4), "thorough_args": fix(maxlen=6), "quick_shards": 32, "thorough_shards": 64},
         {"name": "watch", "pkg": "mimetype", "harnesses": ["HC04Watch"], "quick_args": fix(maxlen=2), "thorough_args": fix(maxlen=3), "quick_shards": 32, "thorough_shards": 64},
         {"name": "slicing", "pkg": "mimetype", "harnesses": ["HC05Reader"], "quick_args": fix(maxlen=3), "thorough_args": fix(maxlen=4), "quick_shards": 16, "thorough_shards": 32},
@@ -195,9 +195,9 @@ SPECS["C04"] = {
         {"name": "reuse", "pkg": "mimetype", "harnesses": ["HC04Reuse"], "args": ["-max-instr", "20000000"], "quick_shards": 32, "thorough_shards": 64},
     ],
     "must_reach": ["assert:reused-buffer-same-answer-as-fresh-copy", "assert:history-same-query-verdict", "assert:second-detection-same-header-bytes", "end", "assert:same-parsed", "assert:same-query-satisfied", "assert:same-verdict-with-recycled-reader", "assert:caller-buffer-not-written", "assert:detect-slices-to-limit"],
-    "bounds": {"quick": {"jsonpool": "raw <= 5 bytes, 4 query kinds, recycled state: symbolic ib/firstToken/querySatisfied/failed, path stack height 0..3 (cap 4) with symbolic keys",
+    "bounds": {"quick": {"jsonpool": "two-step history: arbitrary pooled state (symbolic ib/firstToken/querySatisfied/failed, path stack height 0, 2 or 129 with symbolic keys) -> a real Parse of one of 4 first inputs -> Parse of raw <= 4 bytes, 4 query kinds, compared with a fresh parser",
                          "csvpool": "raw <= 4 bytes, both delimiters, 4 dirtying recipes with symbolic junk", "watch": "Detect on <= 2 symbolic bytes plus 2 symbolic bytes of spare capacity, limits {0,1,2,3072}"},
-               "thorough": {"jsonpool": "<= 6 bytes", "csvpool": "<= 6 bytes", "watch": "<= 3 bytes"}},
+               "thorough": {"jsonpool": "<= 4 bytes", "csvpool": "<= 6 bytes", "watch": "<= 3 bytes"}},
     "outside": ["state inside stubbed functions (sync.Pool is modelled as: Get returns what was Put, else New)", "inputs longer than the bounds"],
     "assumptions": ["sync.Pool contract stub"],
     "stubs": ["(*sync.Pool).Get", "(*sync.Pool).Put"],
